@@ -12,7 +12,7 @@ from .dataflow import local_defs
 
 NAME_RE = re.compile(r"^(x|y|z)(min|max|s|cs|d|_idx|_chunk_idx|_slicing|"
                      r"_coords)?$")
-G_RE = re.compile(r"^g(x|y|z)$")
+G_RE = re.compile(r"^(?:g|d)(x|y|z)$|^(x|y|z)[0-9]$")
 CRS_RE = re.compile(r"^(column|row|slice)_(chunk_idx|slicing)$")
 CRS = {"column": "COL", "row": "ROW", "slice": "SLC"}
 
@@ -55,7 +55,7 @@ def seed_role(name):
         return m.group(1).upper()
     m = G_RE.match(name)
     if m:
-        return m.group(1).upper()
+        return (m.group(1) or m.group(2)).upper()
     m = CRS_RE.match(name)
     if m:
         return CRS[m.group(1)]
